@@ -1038,6 +1038,15 @@ func (dht *IpfsDHT) moveToClientMode() error
   ghost at before call(Stat): assert($recv == s)
   ghost at call(Stat): $dir = $ret0.Direction
   ghost at before call(Reset): assert($recv == s && $dir == network.DirInbound)
+  # EVERY demotion (not only the first) removes the handler of every server
+  # protocol and walks the open connections for streams to reset
+  ghostvar $rm int = 0
+  ghostvar $walked bool = false
+  loop 0 invariant $rm == $key
+  ensures [every-server-protocol-handler-removed] $rm == len(dht.serverProtocols)
+  ensures [open-connections-walked-for-streams-to-reset] $walked
+  ghost at before call(RemoveStreamHandler): assert($arg0 == dht.serverProtocols[$key]); $rm = $rm + 1
+  ghost at call(Conns): $walked = true
 
 func (dht *IpfsDHT) setMode(m mode) error
   props C13 C09
